@@ -486,7 +486,7 @@ def plan(tier, seed):
     # quick is sized for the verification host: a forked injection costs ~0.15 s and forks do not scale over
     # workers (about 15 injections/s in total), so the generated crash cases are few; thorough keeps the full sizes
     if tier == "quick":
-        return [{"task": "smoke"}] + _interleave([{"task": "roundtrip", "examples": 300} for _ in range(6)],
+        return [{"task": "smoke"}] + _interleave([{"task": "roundtrip", "examples": 200} for _ in range(6)],
                                                   [{"task": "crash", "examples": 12} for _ in range(4)])
     return [{"task": "smoke"}] + _interleave([{"task": "roundtrip", "examples": 10000} for _ in range(8)],
                                               [{"task": "crash", "examples": 1200} for _ in range(16)])
